@@ -39,6 +39,8 @@ func c16(w *core.World, r *core.Report) {
 	r.Rule("R16.5", "follower writers start at the META frame's offset and size", 2)
 	r.Rule("R16.6", "clear-before-discontinuity on every path of rdbSync / aofSync", 2)
 	ruleFollowerWriters(w, r)
+	r.Rule("R08.2", "after a restart the follower's store offers only what was completely received: the directory scan ignores temporary snapshots and empty segments (shared with C08)", 3)
+	ruleScan(w, r)
 	r.Rule("R16.7", "every refusal code maps to a non-nil error in the follower's response handler (all paths)", 5)
 	ruleHandleResp(w, r)
 	r.Rule("R16.8", "a refusal frame ends the exchange on the leader (handleError given a non-nil error, result returned)", 4)
